@@ -223,13 +223,15 @@ Qed.
 
 Lemma group_ok_parts : forall g, group_ok g = true ->
   exists s, g_sufs g = [s] /\ wf_suf s = true /\ str_eqb (g_key g) k_in_features = false /\
-            existsb (str_eqb (g_key g)) (g_defaults g) = false /\ count_ok g 1 = true.
+            existsb (str_eqb (g_key g)) (g_defaults g) = false /\ count_ok g 1 = true /\
+            existsb (str_eqb k_in_features) (g_defaults g) = false.
 Proof.
   unfold group_ok; intros g H. repeat (apply andb_true_iff in H as [H ?]).
   destruct (g_sufs g) as [|s [|? ?]] eqn:S; try discriminate. exists s. repeat split; auto.
   - apply negb_true_iff; auto.
   - apply negb_true_iff; auto.
-  - unfold count_ok. rewrite H1. destruct (g_max g); auto.
+  - unfold count_ok. rewrite H2. destruct (g_max g); auto.
+  - apply negb_true_iff; auto.
 Qed.
 
 Lemma grp_at_nth_error : forall gs i, i < List.length gs -> nth_error gs i = Some (grp_at gs i).
@@ -249,7 +251,7 @@ Proof.
   intros gs i src op U L Hs Ha Ho.
   unfold universe_ok in U. apply andb_true_iff in U as [Ug Up].
   pose proof (grp_at_nth_error gs i L) as Ni.
-  destruct (group_ok_parts _ (forallb_nth_error _ _ _ _ Ug Ni)) as (s & Ss & Ws & _ & _ & C1).
+  destruct (group_ok_parts _ (forallb_nth_error _ _ _ _ Ug Ni)) as (s & Ss & Ws & _ & _ & C1 & _).
   unfold op_ok in Ho; cbn [fst snd] in Ho. apply andb_true_iff in Ho as [Ho Hv]. apply andb_true_iff in Ho as [_ Ho].
   assert (Gs : g_suf (grp_at gs i) = s) by (unfold g_suf; rewrite Ss; reflexivity). rewrite Gs.
   set (name := render src op s).
